@@ -127,7 +127,8 @@ class Schema:
         self.classes = js["classes"]
         self.regs = js["regs"]
         self.last = js["last_version"]
-        self.maxv = max([1] + [r["ver"] for r in self.regs])
+        # versions swept: 1 .. max(last registered version, ProtocolHub.LAST_VERSION)
+        self.maxv = max([1, int(self.last)] + [r["ver"] for r in self.regs])
 
     def resolve(self, path):
         mn, fd = self.root, None
@@ -345,6 +346,8 @@ def gen_arg(rng, S, f, p, mode):
         return {"t": "bytes", "v": gen_sval(rng, "KBytes", mode)["x"]}
     if k not in RANGES:
         k = "KU32"
+    if mode == "over":      # just outside the range of the field: the factory must raise, not wrap around
+        return {"t": "int", "v": rng.choice([RANGES[k][1] + 1, RANGES[k][0] - 1])}
     return {"t": "int", "v": gen_sval(rng, k, mode)["i"]}
 
 
@@ -390,6 +393,12 @@ def gen_factory_cases(ctx, S):
                     add(full("edge", present={p["name"] for p in opt if rng.random() < 0.5}), "optional-subset")
             for _ in range(25 if ctx.thorough else 2):
                 add(full("edge"), "edge-mix")
+            # one integer argument just outside its field's range
+            ints = [p for p in params if annotation_kind(p.get("ann")) == "int"]
+            for p in ints[: (len(ints) if ctx.thorough else 1)]:
+                d = full("rand")
+                d[p["name"]] = gen_arg(rng, S, f, p, "over")
+                add(d, "out-of-range")
     for f in S.js["opaque_factories"]:
         if (f["dom"], f["name"]) in PINNED_OPAQUE and f.get("params") == ["result_code"]:
             for v in versions:
@@ -848,6 +857,12 @@ def run(ctx):
             for item in w.get("parse", []):
                 corpus_parse.append((item[0], item[1], "corpus:" + fn))
             for item in w.get("factory", []):
+                sig = fspec.get((item[1], item[2])) or {"params": ospec.get((item[1], item[2]), {}).get("param_info")}
+                names = {p["name"] for p in (sig.get("params") or [])}
+                need = {p["name"] for p in (sig.get("params") or []) if not p["has_default"]}
+                if sig.get("params") is None or not (need <= set(item[3]) <= names):
+                    ctx.cov.setdefault("stale_corpus_cases", []).append([fn, item[1], item[2]])   # signature changed since
+                    continue
                 fcases.insert(0, (item[0], item[1], item[2], item[3], "corpus:" + fn))
     req = {"wrapper": [[v, reg, name, dict(kw)] for v, reg, name, kw, _k in wcases],
            "factory": [[v, dom, fname, argspec, proj_keys(fspec[(dom, fname)]) if (dom, fname) in fspec else
